@@ -3,7 +3,7 @@
    the profile's reference reaches the groups and segments the parser creates
    (parse_segments(..., references=m.reference, find_groups): parser.py:145-205; with
    find_groups=False the `references` argument is NOT used) and Group/Message.find_child_reference
-   (through Model/Groups.v child_admission).  Definitions only; additive: Model/Message.v is untouched
+   (through Model/Groups.v child_acceptance).  Definitions only; additive: Model/Message.v is untouched
    and `parse_message_prof ... None` IS Model/Message.v's parse_message (Proofs/ProfileMsg.v).
 
    A message profile is a Python dict {structure name: reference}.  Its values are references of
@@ -29,8 +29,8 @@ Definition profile := list (str * pent).
 
 (* `self.msh = Segment('MSH', ...)` inside Message.__init__: ElementList.set -> find_child_reference
    (ChildNotValid under STRICT when the structure does not list MSH) -> append -> _can_add_child *)
-Definition msh_admission (t : tables) (lvl : level) (n : str) (st : structure) : result unit :=
-  child_admission t lvl true (Some n) (Some st) [] "MSH".
+Definition msh_acceptance (t : tables) (lvl : level) (n : str) (st : structure) : result unit :=
+  child_acceptance t lvl true (Some n) (Some st) [] "MSH".
 
 (* `message_profile[message_structure] if message_profile is not None else None`, KeyError ->
    MessageProfileNotFound, then the legacy test.  Only None means "no profile": an empty dict lacks
@@ -66,7 +66,7 @@ Definition new_message_ref (t : tables) (e : ec) (n0 : str) (r : sref) : result 
   do st <- parse_structure t r;
   let msh_ref := ref_in (Some st) "MSH" in
   do _ <- mk_segment t "MSH" msh_ref;
-  do _ <- msh_admission t lvl n st;
+  do _ <- msh_acceptance t lvl n st;
   do _ <- check_ec e;
   Ok (mk_message (Some n) (Some st) []).
 
